@@ -27,6 +27,14 @@ class MeanFunction(ABC):
     def mean_and_gradients(self, theta: ndarray):
         pass
 
+    def gradient(self, q, theta: ndarray):
+        raise NotImplementedError(
+            f"""
+            Spatial gradient calculations are not yet available for the
+            {type(self)} mean function.
+            """
+        )
+
 
 class ConstantMean(MeanFunction):
     def __init__(self, hyperpar_bounds=None):
@@ -49,6 +57,9 @@ class ConstantMean(MeanFunction):
 
     def mean_and_gradients(self, theta: ndarray):
         return zeros(self.n_data) + theta[0], [ones(self.n_data)]
+
+    def gradient(self, q, theta: ndarray):
+        return zeros(q.size)
 
 
 class LinearMean(MeanFunction):
@@ -81,6 +92,9 @@ class LinearMean(MeanFunction):
         grads = [ones(self.n_data)]
         grads.extend([v for v in self.dx.T])
         return theta[0] + dot(self.dx, theta[1:]), grads
+
+    def gradient(self, q, theta: ndarray):
+        return theta[1:] + zeros(q.size)
 
 
 class QuadraticMean(MeanFunction):
@@ -124,3 +138,7 @@ class QuadraticMean(MeanFunction):
         grads.extend([v for v in self.dx.T])
         grads.extend([v for v in self.dx_sqr.T])
         return self.build_mean(theta), grads
+
+    def gradient(self, q, theta: ndarray):
+        d = q - self.x_mean
+        return theta[self.lin_slc] + 2 * d * theta[self.quad_slc]
